@@ -1,11 +1,12 @@
 #!/bin/sh
-# tools/reverify_seeded.sh [jobs]: re-verify every kept seeded change against /repo HEAD and the current checks
+# tools/reverify_seeded.sh [jobs]: re-verify every kept seeded change (patch.diff in /verif/seeded/<tag>/) against /repo HEAD
+# and the current checks: patch applies, demo PASS -> FAIL, 150 tests pass, the property's quick check reports a violation.
 J="${1:-4}"
 ls /verif/seeded | while read T; do
   P=$(echo $T | cut -d- -f1); R=$(echo $T | cut -d- -f2-)
-  case "$R" in w2-*) W="--wave=w2"; K=$(echo $R | cut -d- -f2);; *) W=""; K=$R;; esac
+  case "$R" in w*-*) W="--wave=$(echo $R | cut -d- -f1)"; K=$(echo $R | cut -d- -f2);; *) W="--wave="; K=$R;; esac
   echo "$P $K $W"
-done | xargs -P "$J" -L 1 sh -c '/verif/tools/harvest.py $0 $1 $2 | /venv/bin/python -c "
+done | xargs -P "$J" -L 1 sh -c '/verif/tools/harvest.py $0 $1 $2 --stored | /venv/bin/python -c "
 import json,sys
 d=json.load(sys.stdin)
 c=d[\"checks\"][d[\"property\"]]
